@@ -16,7 +16,7 @@ from trie.exceptions import InvalidKeyError
 
 from ..ref.bintrie import MALFORMED, MISSING, RefBin, bits_of, resolve
 from ..util import Info, Raised, expect, expect_eq, impl
-from .c12 import _conflicts, resolve_arg, resolve_bin_val, strategy as c12_history
+from .c12 import BLANK as BLANK_HASH, _conflicts, resolve_arg, resolve_bin_val, strategy as c12_history
 
 ID = "C13"
 LEVEL = "exploration"
@@ -138,6 +138,21 @@ def run_case(case):
     t = impl("construct", BinaryTrie, db)
     model = {}
     _play(t, model, case["hist"])
+    # ---- the empty trie: nothing stored, so no prefix exists and there are no nodes -------
+    empties = [({}, BLANK_HASH, "a fresh empty trie")]
+    if not model:
+        empties.append((db, bytes(t.root_hash), "the trie emptied by the history"))
+        info.label("history-ends-empty")
+    for edb, eroot, what in empties:
+        for kspec in case["keys"]:
+            k = kspec[1] if kspec[0] == "lit" else b"\x12"
+            got = impl("check_if_branch_exist", check_if_branch_exist, edb, eroot, k)
+            expect_eq("branch-exists-iff-key-starts-with", got, False, f"check_if_branch_exist({k!r}) on {what}")
+            got = impl("get_branch", get_branch, edb, eroot, k)
+            expect_eq("branch-nodes-belong-to-trie", got, (), f"get_branch({k!r}) on {what}")
+            got = impl("get_witness_for_key_prefix", get_witness_for_key_prefix, edb, eroot, k)
+            expect_eq("witness-only-trie-nodes", got, (), f"get_witness_for_key_prefix({k!r}) on {what}")
+        expect_eq("trie-nodes-exact", impl("get_trie_nodes", get_trie_nodes, edb, eroot), (), f"get_trie_nodes on {what}")
     if not model:
         impl("set", t.set, b"\x12\x34", b"fallback")
         model[b"\x12\x34"] = b"fallback"
